@@ -114,7 +114,7 @@ class RM:
         for s in self.sims:
             t = s["type"] if not s.get("omit_type") else "time-based"
             self.type[s["sid"]] = t
-            d = model_desc(s["type"], s.get("meta_style", 0), s.get("any_inputs", False))
+            d = s.get("desc") or model_desc(s["type"], s.get("meta_style", 0), s.get("any_inputs", False))
             self.cls[s["sid"]] = classify(d, t)
         self.conns: List[Conn] = []
         self.verdicts: List[Optional[str]] = []   # per connect call: None=accept, else reason
@@ -148,8 +148,8 @@ class RM:
                     reasons.append((pi, why))
                     continue
                 e = Conn()
-                e.u, e.ue, e.ua = u, f"e{c.get('se', 0)}", ua
-                e.v, e.ve, e.va = v, f"e{c.get('de', 0)}", va
+                e.u, e.ue, e.ua = u, c.get("src_eid") or f"e{c.get('se', 0)}", ua
+                e.v, e.ve, e.va = v, c.get("dst_eid") or f"e{c.get('de', 0)}", va
                 e.k, e.weak = k, weak
                 e.init = init[ua] if has_init else NOINIT
                 e.trig = v_trig(va)
